@@ -130,7 +130,7 @@ def main():
         "hooks": {
             "guard": "KALIGN_VERIF",
             "enable": "-DCMAKE_C_FLAGS=-DKALIGN_VERIF (vlib/build.py passes it to every variant it builds from /repo)",
-            "baseline_off_cmd": "cmake -S /repo -B /repo/_build_off -DCMAKE_BUILD_TYPE=Release && cmake --build /repo/_build_off -j16 && ctest --test-dir /repo/_build_off -j8 --timeout 900",
+            "baseline_off_cmd": "cmake -S /repo -B /repo/_build_off -DCMAKE_BUILD_TYPE=Release && cmake --build /repo/_build_off -j16 && ctest --test-dir /repo/_build_off -j8 --timeout 900 </dev/null",
             "source_commits": hook_commits,
             "add_only": True,
         },
